@@ -44,10 +44,13 @@ def main():
             continue
         try:
             res = {}
+            import time
             for p in props:
+                t0 = time.time()
                 rc, out = sh(f"./check {p} --tier quick", cwd=ROOT, env={"PYTHONPATH": wt})
                 res[p] = rc
-            ok = all(rc == 1 for rc in res.values())
+                res[p + "_s"] = round(time.time() - t0)
+            ok = all(rc == 1 for k, rc in res.items() if not k.endswith('_s'))
             print(sid, "detected" if ok else "NOT-DETECTED", res, flush=True)
             if not ok:
                 bad += 1
